@@ -39,7 +39,6 @@ func init() {
 		ID:       "C21",
 		Title:    "Mempool bookkeeping stays consistent",
 		Packages: []string{"system/mempool"},
-		Hold:     "rule R21b fires on three unlocked accesses (eventGetMempool→filterTxList, getCacheFeeRate, delBlock→checkExpireValid); race reproduction and fix in progress",
 		Explanation: "Decides R21a-R21f: txCache.Push/Remove update every sub-index (type-driven: every field with Push+Remove, plus totalFee), Push only behind CanPush and in an order where nothing fallible follows the first insertion unchecked; " +
 			"every access to the cache structure / header / sync flag happens under proxyMtx (write lock for mutators), propagated over callers; who-may-call on Push/Remove; capacity, duplicate and per-sender limits are live and correctly oriented; " +
 			"eventAddBlock removes the block's transactions on every path (unless the pool is empty) and RemoveTxsOfBlock covers every transaction of the block.",
